@@ -227,6 +227,12 @@ def run(ctx: Ctx) -> None:
         # no subscript read of an auto-vivifying attribute at all (lookups go through .get / membership tests): nothing can insert a key
         ctx.ob("C09.R4", None, None, "no subscript read of an auto-vivifying node attribute anywhere", True, f"auto-vivifying attributes: {sorted(auto_attrs)}",
                module="geneticengine/representations/tree")
+    # R5: a cached fitness cannot be rewritten from outside the library - the components recorded for an individual are a list of the
+    # library's own (the Problem model of C13, interpreted here for this clause: steps evaluate part of their input on demand, and a
+    # fitness function that reuses its result list would rewrite the fitness cached on every other input individual)
+    ctx.rule("C09.R5", "the fitness cached on an individual does not alias an object the user's fitness function keeps")
+    from .c13 import rule_r5 as _problem_rule
+    _problem_rule(ctx, alias_rid="C09.R5")
 
 
 def _is_nested(gcls) -> bool:
